@@ -103,7 +103,7 @@ func ruleWriteCount(r *Report) {
 			case y == cnt && in.isWant(x) && (bo.Op == token.LEQ || bo.Op == token.EQL):
 				short = b.Succs[1]
 			}
-			if short == nil || !precedes(*w, Site{fn, b, len(b.Instrs) - 1, iff}) {
+			if short == nil || !precedes(*w, Site{Fn: fn, Block: b, Idx: len(b.Instrs) - 1, Instr: iff}) {
 				continue
 			}
 			// the short edge leads to an error: a failing return, or a use of io.ErrShortWrite within two blocks
